@@ -4,7 +4,7 @@
 (* Also emits the scenarios with their octet streams and the delivery schedules to replay on the real server.       *)
 EXTENDS Server, Json
 
-CONSTANTS MaxFrames, Pers,     \* Pers: "any" | "simple" | "p10" | "p23" | "p10_23" | "pa" (configured route path)
+CONSTANTS MaxFrames, Pers,     \* Pers: "any" | "simple" | "p10" | "p23" | "p10_23" | "pa" | "p15" (configured route path)
           Frames               \* "all" | "routes" (C15: every route-path shape x service) | "pipeline" (C06)
 
 SCfg == [ budget |-> 488,
@@ -17,9 +17,12 @@ Route10_23 == Route10 \o Route23
 Route11 == << [k |-> "port", p |-> 1, l |-> 1] >>
 Route20 == << [k |-> "port", p |-> 2, l |-> 0] >>
 RouteX  == << [k |-> "port", p |-> 17, l |-> 0] >>                                      \* extended port number
+Route15 == << [k |-> "port", p |-> 1, l |-> 5] >>
+Route15A == << [k |-> "porta", p |-> 1, a |-> <<53>>] >>                                \* 1/"5": an address link spelling the digits of link 5
+Route15B == << [k |-> "porta", p |-> 1, a |-> <<48, 53>>] >>                            \* 1/"05"
 SPers == CASE Pers = "any" -> [k |-> "any"] [] Pers = "simple" -> [k |-> "simple"] [] Pers = "p10" -> [k |-> "path", segs |-> Route10]
            [] Pers = "p23" -> [k |-> "path", segs |-> Route23] [] Pers = "p10_23" -> [k |-> "path", segs |-> Route10_23]
-           [] Pers = "pa" -> [k |-> "path", segs |-> RouteA]
+           [] Pers = "pa" -> [k |-> "path", segs |-> RouteA] [] Pers = "p15" -> [k |-> "path", segs |-> Route15]
 
 Rq(svc, tag, idx, n, typ, vals) == [svc |-> svc, tag |-> tag, mode |-> "sym", idx |-> idx, n |-> n, off |-> 0, typ |-> typ,
                                     vals |-> vals, bytes |-> <<>>, ms |-> <<>>]
@@ -42,7 +45,8 @@ GasA == [svc |-> "gas", tag |-> 1, mode |-> "cia", idx |-> 0 - 1, n |-> 0, off |
 RouteFrames ==
   { F("rr", S1, C1, w[1], w[2], q) :
       w \in { <<"simple", <<>>>>, <<"ucsend", <<>>>>, <<"ucsend", Route10>>, <<"ucsend", Route23>>, <<"ucsend", Route11>>,
-               <<"ucsend", Route20>>, <<"ucsend", Route10_23>>, <<"ucsend", RouteA>>, <<"ucsend", RouteX>> },
+               <<"ucsend", Route20>>, <<"ucsend", Route10_23>>, <<"ucsend", RouteA>>, <<"ucsend", RouteX>>,
+               <<"ucsend", Route15>>, <<"ucsend", Route15A>>, <<"ucsend", Route15B>> },
       q \in { WriteA, ReadA, GasA, Bundle } }
 PipeFrames == { F("rr", S1, <<i, 0, 0, 0, 0, 0, 0, i>>, "ucsend", Route10, q) : i \in {1, 200}, q \in {WriteA, ReadA, ReadBad, WrongTy, Bundle, WriteB} }
 AllFrames ==
@@ -61,7 +65,22 @@ AllFrames ==
     F("unregister", S1, C0, "simple", <<>>, NoReq),
     F("badcmd", S1, C1, "simple", <<>>, NoReq) }
 
-FrameSet == IF Frames = "routes" THEN RouteFrames ELSE IF Frames = "pipeline" THEN AllFrames \cup PipeFrames ELSE AllFrames
+\* connected messaging: Forward Open (small / large; target-chosen or originator-chosen O->T id), SendUnitData, Forward Close
+Side(id, rpi, size, variable, priority, type, redundant) ==
+  [id |-> id, rpi |-> rpi, size |-> size, variable |-> variable, priority |-> priority, type |-> type, redundant |-> redundant]
+FO(otid, ottype, size, serial) ==
+  [prio |-> 5, ticks |-> 157, ot |-> Side(otid, <<64, 66, 15, 0>>, size, 1, 0, ottype, 0), to |-> Side(<<9, 8, 7, 6>>, <<32, 161, 7, 0>>, size, 1, 0, 2, 0),
+   serial |-> serial, vendor |-> 4919, oserial |-> <<120, 86, 52, 18>>, mult |-> 1, trigger |-> 163,
+   cpath |-> << [k |-> "port", p |-> 1, l |-> 0], [k |-> "class", v |-> 2], [k |-> "inst", v |-> 1] >>]
+FC(kind, fo) == [kind |-> kind, sess |-> S1, ctx |-> C1, wrap |-> "simple", route |-> <<>>, tmo |-> 5, req |-> NoReq, fo |-> fo]
+FU(cid, seq, q) == [kind |-> "unit", sess |-> S1, ctx |-> <<seq % 256, 0, 0, 0, 0, 0, 0, 7>>, wrap |-> "simple", route |-> <<>>, tmo |-> 0, req |-> q, cid |-> cid, seq |-> seq]
+Cid1 == <<17, 0, 0, 1>>   Cid2 == <<34, 0, 0, 2>>
+ConnFrames ==
+  { FC("fwdopen", FO(Cid1, 2, 500, 1)), FC("fwdopen", FO(Cid2, 1, 4000, 2)), FC("fwdclose", FO(Cid1, 2, 500, 1)), FC("fwdclose", FO(Cid2, 1, 4000, 2)),
+    F("register", S0, C1, "simple", <<>>, NoReq) }
+  \cup { FU(c, sq, q) : c \in {Cid1, Cid2}, sq \in {1, 65535}, q \in {WriteA, ReadA, ReadBad, Bundle} }
+FrameSet == IF Frames = "routes" THEN RouteFrames ELSE IF Frames = "pipeline" THEN AllFrames \cup PipeFrames
+            ELSE IF Frames = "connected" THEN ConnFrames ELSE AllFrames
 
 Scenario(fs) == [cfg |-> SCfg, pers |-> SPers, mem0 |-> ZeroMemOf(SCfg), frames |-> fs]
 Scenarios == UNION { { Scenario(fs) : fs \in [1 .. k -> FrameSet] } : k \in 1 .. MaxFrames }
